@@ -86,7 +86,255 @@ class Ref:
         return out
 
     def define(self, st):
-        raise Unsupported("definition %s" % type(st).__name__)
+        cn = type(st).__name__
+        if cn == "DPRuleset":
+            self.dprs = getattr(self, "dprs", {})
+            self.dprs[st.name] = st
+        elif cn == "HRuleset":
+            self.hrs = getattr(self, "hrs", {})
+            self.hrs[st.name] = st
+        else:
+            raise Unsupported("definition %s" % cn)
+
+    # ------------------------------------------------------------------ validation operators
+    @staticmethod
+    def _err_cols(cols, isfalse, code, level):
+        cols["errorcode"] = ite(isfalse, lit(code), NULL("str")) if code is not None else NULL("str")
+        if level is None:
+            cols["errorlevel"] = NULL("int")
+        else:
+            cols["errorlevel"] = ite(isfalse, lit(level), NULL("int" if isinstance(level, int) else "str"))
+
+    def n_Validation(self, node):
+        v = self.ev(node.validation)
+        if not isinstance(v, RDS) or len(v.measures()) != 1:
+            raise Unsupported("oracle: check on non mono-measure dataset")
+        bm = v.measures()[0]
+        imb = self.ev(node.imbalance) if node.imbalance is not None else None
+        if imb is not None and (not isinstance(imb, RDS) or len(imb.measures()) != 1):
+            raise Unsupported("oracle: imbalance shape")
+        ids = v.ids()
+        rows = []
+        for r in v.rows:
+            b = as_kind(r.cols[bm], "bool")
+            isfalse = z3.And(z3.Not(b.null), z3.Not(b.val))
+            cols = {i: r.cols[i] for i in ids}
+            cols["bool_var"] = b
+            pres = r.present
+            if imb is not None:
+                # the imbalance datapoint with the same identifiers (absent -> the validation datapoint is not produced)
+                found, val = FALSE, None
+                for ir in imb.rows:
+                    hit = z3.And(ir.present, *[same(ir.cols[i], r.cols[i]) for i in ids])
+                    iv = ir.cols[imb.measures()[0]]
+                    val = iv if val is None else ite(hit, iv, val)
+                    found = z3.Or(found, hit)
+                cols["imbalance"] = val
+                pres = z3.And(pres, found)
+            else:
+                cols["imbalance"] = NULL("real")
+            self._err_cols(cols, isfalse, node.error_code, node.error_level)
+            if node.invalid:
+                pres = z3.And(pres, isfalse)
+            rows.append(Row(pres, cols, r.ord))
+        comps = [v.comp(i) for i in ids] + [("bool_var", "Boolean", "Measure"),
+                                            ("imbalance", imb.comp(imb.measures()[0])[1] if imb is not None else "Number", "Measure"),
+                                            ("errorcode", "String", "Measure"), ("errorlevel", "Integer", "Measure")]
+        return RDS(comps, rows)
+
+    def n_DPValidation(self, node):
+        ds = self.ev(node.dataset)
+        rs = getattr(self, "dprs", {}).get(node.ruleset_name)
+        if rs is None or not isinstance(ds, RDS):
+            raise Unsupported("oracle: check_datapoint operands")
+        out = node.output.value if node.output is not None else "invalid"
+        rules = list(rs.rules)
+        if all(r.name is None for r in rules):
+            names = [str(i + 1) for i in range(len(rules))]
+        else:
+            names = [r.name for r in rules]
+        rows = []
+        for k, (rule, rname) in enumerate(zip(rules, names)):
+            for r in ds.rows:
+                def ev_(x, r=r):
+                    return self.in_row(ds, r, lambda: self.ev(x))
+                if type(rule.rule).__name__ == "HRBinOp" and rule.rule.op == "when":
+                    c = as_kind(ev_(rule.rule.left)[0], "bool")
+                    t = as_kind(ev_(rule.rule.right)[0], "bool")
+                    ctrue = z3.And(z3.Not(c.null), c.val)
+                    cfalse = z3.And(z3.Not(c.null), z3.Not(c.val))
+                    b = SV("bool", z3.Not(z3.Or(cfalse, z3.And(ctrue, z3.Not(t.null)))), z3.Or(cfalse, z3.And(ctrue, t.val)))
+                else:
+                    b = as_kind(ev_(rule.rule)[0], "bool")
+                isfalse = z3.And(z3.Not(b.null), z3.Not(b.val))
+                cols = {i: r.cols[i] for i in ds.ids()}
+                cols["ruleid"] = lit(rname)
+                if out in ("invalid", "all_measures"):
+                    for m in ds.measures():
+                        cols[m] = r.cols[m]
+                if out in ("all", "all_measures"):
+                    cols["bool_var"] = b
+                if out == "invalid":
+                    cols["errorcode"] = lit(rule.erCode) if rule.erCode is not None else NULL("str")
+                    cols["errorlevel"] = lit(rule.erLevel) if rule.erLevel is not None else NULL("int")
+                else:
+                    self._err_cols(cols, isfalse, rule.erCode, rule.erLevel)
+                pres = z3.And(r.present, isfalse) if out == "invalid" else r.present
+                rows.append(Row(pres, cols, [z3.IntVal(k)] + r.ord))
+        comps = [ds.comp(i) for i in ds.ids()] + [("ruleid", "String", "Identifier")]
+        if out in ("invalid", "all_measures"):
+            comps += [ds.comp(m) for m in ds.measures()]
+        if out in ("all", "all_measures"):
+            comps.append(("bool_var", "Boolean", "Measure"))
+        comps += [("errorcode", "String", "Measure"), ("errorlevel", "Number", "Measure")]
+        return RDS(comps, rows)
+
+    # ---- hierarchical rulesets
+    @staticmethod
+    def _hr_terms(node, sign=1):
+        """right-hand side of a hierarchical rule -> [(sign, code)]"""
+        cn = type(node).__name__
+        if cn == "DefIdentifier":
+            return [(sign, node.value)]
+        if cn == "HRUnOp":
+            return Ref._hr_terms(node.operand, sign * (-1 if node.op == "-" else 1))
+        if cn == "HRBinOp" and node.op in ("+", "-"):
+            return Ref._hr_terms(node.left, sign) + Ref._hr_terms(node.right, sign * (-1 if node.op == "-" else 1))
+        raise Unsupported("oracle: hierarchical rule shape %s" % cn)
+
+    def n_HROperation(self, node):
+        ds = self.ev(node.dataset)
+        rs = getattr(self, "hrs", {}).get(node.ruleset_name)
+        if rs is None or not isinstance(ds, RDS) or len(ds.measures()) != 1 or node.conditions:
+            raise Unsupported("oracle: hierarchy operands")
+        comp = node.rule_component.value
+        meas = ds.measures()[0]
+        mkind = KIND_OF_TYPE[ds.comp(meas)[1]]
+        others = [i for i in ds.ids() if i != comp]
+        mode = node.validation_mode.value if node.validation_mode is not None else "non_null"
+        if mode not in ("non_null", "always_null", "always_zero", "partial_null", "partial_zero"):
+            raise Unsupported("oracle: validation mode %s" % mode)
+        rules = list(rs.rules)
+        names = [r.name for r in rules] if any(r.name is not None for r in rules) else [str(i + 1) for i in range(len(rules))]
+        all_codes = []
+        for r in rules:
+            for _, c in [(1, r.rule.left.value)] + self._hr_terms(r.rule.right):
+                if c not in all_codes:
+                    all_codes.append(c)
+        n = len(ds.rows)
+        rel = [z3.And(r.present, z3.Or(*[r.cols[comp].val == z3.StringVal(c) for c in all_codes])) for r in ds.rows]
+        # groups: distinct values of the other identifiers among datapoints holding one of the ruleset's code items
+        groups = []
+        for i, r in enumerate(ds.rows):
+            members = [z3.And(rel[j], *[same(ds.rows[j].cols[o], r.cols[o]) for o in others]) for j in range(n)]
+            first = z3.And(rel[i], *[z3.Not(members[j]) for j in range(i)])
+            groups.append((first, r, members))
+
+        def item(members, code, override):
+            """(has Bool, SV value) of a code item inside a group"""
+            if code in override:
+                return override[code]
+            has, val = FALSE, NULL(mkind)
+            for m, r in zip(members, ds.rows):
+                hit = z3.And(m, r.cols[comp].val == z3.StringVal(code))
+                val = ite(hit, r.cols[meas], val)
+                has = z3.Or(has, hit)
+            return has, val
+
+        def treat(has, val):
+            """value of an item under the mode (missing -> null / 0)"""
+            if mode.endswith("zero"):
+                zero = lit(0) if mkind == "int" else SV("real", FALSE, z3.RealVal(0))
+                return ite(has, val, zero)
+            return SV(val.kind, z3.Or(z3.Not(has), val.null), val.val)
+
+        def evaluated(hv):
+            """is the rule evaluated for the group? hv: [(has, raw value)] of all its items"""
+            anyhas = z3.Or(*[h for h, _ in hv])
+            if mode == "non_null":
+                return z3.And(*[z3.And(h, z3.Not(v.null)) for h, v in hv])
+            # always_* / partial_*: groups where none of the rule's items exists are outside the oracle
+            self.domain.append(z3.Implies(z3.Or(*[g[0] for g in groups]) if False else TRUE, TRUE))
+            if mode == "partial_null":
+                return z3.Or(*[z3.And(h, z3.Not(v.null)) for h, v in hv])
+            return anyhas
+        is_check = node.op == "check_hierarchy"
+        out = node.output.value if node.output is not None else ("invalid" if is_check else "computed")
+        rows = []
+        if is_check:
+            for k, (rule, rname) in enumerate(zip(rules, names)):
+                left = rule.rule.left.value
+                terms = self._hr_terms(rule.rule.right)
+                for first, rep, members in groups:
+                    hv = [item(members, c, {}) for c in [left] + [c for _, c in terms]]
+                    ev_ = evaluated(hv)
+                    if mode != "non_null":
+                        self.domain.append(z3.Implies(first, z3.Or(*[h for h, _ in hv])))
+                    lv = treat(*hv[0])
+                    rv = None
+                    for (sg, c), (h, v) in zip(terms, hv[1:]):
+                        t = treat(h, v)
+                        t = t if sg > 0 else SV(t.kind, t.null, -t.val)
+                        rv = t if rv is None else SV(t.kind, z3.Or(rv.null, t.null), rv.val + t.val)
+                    b, _ = self.s_binop(rule.rule.op, (lv, "Number"), (rv, "Number"), TRUE)
+                    imb = SV(lv.kind, z3.Or(lv.null, rv.null), lv.val - rv.val)
+                    isfalse = z3.And(z3.Not(b.null), z3.Not(b.val))
+                    cols = {o: rep.cols[o] for o in others}
+                    cols[comp] = lit(left)
+                    cols["ruleid"] = lit(rname)
+                    cols["imbalance"] = imb
+                    if out == "invalid":
+                        cols[meas] = lv
+                        cols["errorcode"] = lit(rule.erCode) if rule.erCode is not None else NULL("str")
+                        cols["errorlevel"] = lit(rule.erLevel) if rule.erLevel is not None else NULL("int")
+                        pres = z3.And(first, ev_, isfalse)
+                    else:
+                        cols["bool_var"] = b
+                        if out == "all_measures":
+                            cols[meas] = lv
+                        self._err_cols(cols, isfalse, rule.erCode, rule.erLevel)
+                        pres = z3.And(first, ev_)
+                    rows.append(Row(pres, cols, [z3.IntVal(k)] + rep.ord))
+            comps = [ds.comp(i) for i in ds.ids()] + [("ruleid", "String", "Identifier")]
+            if out in ("invalid", "all_measures"):
+                comps.append(ds.comp(meas))
+            if out in ("all", "all_measures"):
+                comps.append(("bool_var", "Boolean", "Measure"))
+            comps += [("errorcode", "String", "Measure"), ("errorlevel", "Number", "Measure"), ("imbalance", "Number", "Measure")]
+            return RDS(comps, rows)
+        # hierarchy: computed items from '=' rules, applied in order (a later rule sees earlier computed items)
+        if mode != "non_null":
+            raise Unsupported("oracle: hierarchy in mode %s" % mode)
+        computed_rows = []
+        for first, rep, members in groups:
+            override = {}
+            for k, rule in enumerate(rules):
+                if rule.rule.op != "=":
+                    continue
+                left = rule.rule.left.value
+                terms = self._hr_terms(rule.rule.right)
+                hv = [item(members, c, override) for _, c in terms]
+                ok = z3.And(*[z3.And(h, z3.Not(v.null)) for h, v in hv])
+                rv = None
+                for (sg, c), (h, v) in zip(terms, hv):
+                    t = v if sg > 0 else SV(v.kind, v.null, -v.val)
+                    rv = t if rv is None else SV(t.kind, z3.Or(rv.null, t.null), rv.val + t.val)
+                oh, ov = item(members, left, override)
+                override[left] = (z3.Or(ok, oh), ite(ok, rv, ov))
+                cols = {o: rep.cols[o] for o in others}
+                cols[comp] = lit(left)
+                cols[meas] = rv
+                computed_rows.append((z3.And(first, ok), cols, [z3.IntVal(k)] + rep.ord, left))
+        if out == "computed":
+            # a code item computed by several rules: the statement does not fix it -> templates use distinct left sides
+            rows = [Row(p, c, o) for p, c, o, _ in computed_rows]
+            return RDS([ds.comp(i) for i in ds.ids()] + [ds.comp(meas)], rows)
+        # all: input datapoints, overridden by computed ones with the same identifiers
+        rows = [Row(p, c, o) for p, c, o, _ in computed_rows]
+        for r in ds.rows:
+            over = z3.Or(*[z3.And(p, *[same(c[i], r.cols[i]) for i in ds.ids()]) for p, c, o, _ in computed_rows]) if computed_rows else FALSE
+            rows.append(Row(z3.And(r.present, z3.Not(over)), {i: r.cols[i] for i in ds.ids() + [meas]}, r.ord))
+        return RDS([ds.comp(i) for i in ds.ids()] + [ds.comp(meas)], rows)
 
     def def_viral(self, st):
         self.vp_rules[st.target] = dict(enum=[(list(c.values), c.result) for c in (st.enumerated_clauses or [])],
